@@ -1,6 +1,8 @@
 import RR.Proof.Sync
 import RR.Proof.SyncWork
 import RR.Proof.Hand
+import RR.Proof.Resampler
+import RR.Proof.DspFir
 
 /-!
 # C08 — every block is a pure stream function: output independent of chunking
@@ -86,7 +88,27 @@ theorem c08_no_panic_hand (k : Nat) (X : List Nat) (c a f z : Nat) (hz : z ≤ k
   obtain ⟨_, _, _, _, _, _, _, h⟩ := delay_step k X c z a f hz hcz
   exact h
 
+/-- **RationalResampler, any chunking** — including an output that fills up in the
+middle of the copies of one sample: the output delivered so far, followed by the reference
+output of the unconsumed input from the block's counter, is the reference output
+(`resRef`: the same arithmetic with unbounded output space) of the whole input. -/
+theorem c08_resampler (I D : Int) (hD : 0 < D) (X : List Nat) (sched : List (Nat × Nat)) :
+    let r := drive1 (resBlockRaw I D) X (0 : Int) 0 [] sched
+    resRef I D 0 X = r.2.2 ++ resRef I D r.1 (X.drop r.2.1) :=
+  res_drive I D hD X sched 0 0 [] (by simp)
+
+/-- FIR filter (any arithmetic, any decimation), any chunking: see `c11_fir_any_chunking`. -/
+theorem c08_fir {α : Type} (o : Dsp.Ops α) (cd : Dsp.Codec α) (taps : List α) (deci : Nat) (X : List Nat)
+    (hd : 0 < deci) (ht : 0 < taps.length) (sched : List (Nat × Nat)) :
+    let r := drive1 (Dsp.firBlock o cd taps deci) X () 0 [] sched
+    ∃ q', r.2.1 = q' * deci ∧ r.2.2 = Dsp.firSpec o cd (Dsp.firNew taps) deci X q' := by
+  have := Dsp.fir_drive o cd taps deci X 0 hd ht sched
+  simpa [Dsp.firSpec] using this
+
 /-! Non-vacuity. -/
+example : (drive1 (resBlockRaw 3 2) [7, 8, 9, 10] (0 : Int) 0 [] [(4, 1), (4, 2), (0, 9), (4, 1), (4, 9)]).2.2 =
+    resRef 3 2 0 [7, 8, 9, 10] := by decide
+example : resRef 3 2 0 [7, 8, 9, 10] = [7, 7, 8, 9, 9, 10] := by decide
 example : (drive1 (skipBlock 2) [1, 2, 3, 4, 5] (2 : Nat) 0 [] [(1, 9), (3, 9), (9, 1), (9, 9)]).2 = (5, [3, 4, 5]) := by
   decide
 example : (drive1 (delayBlock 2) [7, 8, 9] ⟨2, 0⟩ 0 [] [(1, 1), (3, 2), (3, 9)]).2 = (3, [0, 0, 7, 8, 9]) := by
